@@ -561,6 +561,20 @@ func (it *Interp) atomHolds(atom string, byName map[string]Value) Tri {
 		}
 		return No
 	}
+	if strings.HasPrefix(lhs, "notlit(") {
+		// the operand text is something else than the literal rhs
+		t, _ := byName[strings.TrimSuffix(strings.TrimPrefix(lhs, "notlit("), ")")].(*Tmpl)
+		if t == nil {
+			return Unknown
+		}
+		if t.IsConcrete() {
+			if t.Concrete() == rhs {
+				return No
+			}
+			return Yes
+		}
+		return Unknown
+	}
 	if strings.HasPrefix(lhs, "kind(") {
 		t, _ := byName[strings.TrimSuffix(strings.TrimPrefix(lhs, "kind("), ")")].(*SymType)
 		if t == nil {
